@@ -84,7 +84,7 @@ Proof.
   { intros i f. destruct (Nat.eqb_spec i p) as [Hip|Hip]; destruct (Nat.eqb_spec i r) as [Hir|Hir]; subst;
       try congruence;
       rewrite ?nth_upd_eq by lia; rewrite ?(nth_upd_neq f s _ _ wk0) by congruence; reflexivity. }
-  destruct e as [i h|i c|i b|i t|i|i t|i t nn|i|i]; cbn [sys_step pproj]; rewrite Hw;
+  destruct e as [i h|i c|i b|i k|i k|i t|i|i t|i t nn|i|i]; cbn [sys_step pproj]; rewrite Hw;
     destruct (Nat.eqb_spec i p) as [Hip|Hip]; destruct (Nat.eqb_spec i r) as [Hir|Hir]; subst; try congruence;
     cbn [app fold_left pstep on_writer unsync_all k_w k_m]; rewrite ?nth_map_unsync, ?nth_map_none; try reflexivity.
   (* the exchange of walker r: its mirror of p is updated from p's files *)
@@ -150,16 +150,16 @@ Qed.
 (* right after an exchange of walker r: for every registered peer p everything visible is in r's mirror of p *)
 Theorem sys_share_complete : forall n es r p, sys_ok n (es ++ [SShare r]) = true -> (r < n)%nat -> (p < n)%nat -> r <> p ->
   let st := pair_of (sys_run (es ++ [SShare r]) (sys_init n)) r p in
-  w_reg (fst st) = true ->
+  w_reg (fst st) = true -> w_rv (fst st) = 2%Z -> w_lv (fst st) = 2%Z ->
   exists m, snd st = Some m /\ prefix (visible (fst st)) (m_cont m) /\ prefix (m_cont m) (w_D (fst st)).
 Proof.
-  intros n es r p Hok Hr Hp Hrp st Hreg. subst st.
+  intros n es r p Hok Hr Hp Hrp st Hreg Hrv Hlv. subst st.
   rewrite (pair_run n _ _ r p (wfs_init n) Hr Hp Hrp), (pair_init n r p Hr Hp) in *.
   pose proof (sys_ok_pair n _ r p Hok Hr Hp Hrp) as Hok'.
   rewrite flat_map_app in *. cbn [flat_map pproj] in *. rewrite Nat.eqb_refl in *. cbn [app] in *.
   try rewrite app_nil_r in *.
   destruct (prun true true (flat_map (pproj r p) es ++ [RShare]) pinit) as [w om] eqn:E. cbn [fst snd] in *.
-  destruct (meta_share_complete _ w om Hok' E Hreg) as (m & -> & H1 & H2 & _). eauto.
+  destruct (meta_share_complete _ w om Hok' E Hreg Hrv Hlv) as (m & -> & H1 & H2 & _). eauto.
 Qed.
 
 (* a 3-walker system in which everybody deposits, exchanges and rewrites its state file *)
